@@ -474,6 +474,7 @@ def extract_function(fn):
     out = []
     out.append("/* ---- extracted from %s:%d-%d  sha256(body)=%s ---- */" % (fn["file"], line0, line1, sha[:16]))
     out.append("#undef VERIF_RV\n#define VERIF_RV %s" % rv)
+    out.append("#undef VERIF_UNWIND\n#define VERIF_UNWIND %s" % fn.get("unwind", ""))
     for k, v in fn.get("typedefs", {}).items():
         out.append("#define %s %s" % (k, v))
     out.append(csig)
